@@ -32,8 +32,20 @@ def guarded(fn, secs=20):
 
 def replay(cfg, events):
     v = Vocab(cfg.get("vocab", "plain"))
-    g = Graph()
     head = BNode("head") if cfg.get("head", "bnode") == "bnode" else URIRef("urn:x:head")
+    if cfg.get("sibling"):
+        # the list lives in one named graph of a dataset; another graph of the same store, filled first, holds a
+        # different (longer) chain starting at the same head node
+        from rdflib import Dataset
+        ds = Dataset()
+        other = ds.graph(URIRef("urn:x:other"))
+        c2, c3 = BNode("oc2"), BNode("oc3")
+        for t in ((head, RDF.first, URIRef("urn:x:ox")), (head, RDF.rest, c2), (c2, RDF.first, URIRef("urn:x:oy")), (c2, RDF.rest, c3),
+                  (c3, RDF.first, URIRef("urn:x:oz")), (c3, RDF.rest, RDF.nil)):
+            other.add(t)
+        g = ds.graph(URIRef("urn:x:mine"))
+    else:
+        g = Graph()
     c = None
     names = {head: "h", RDF.nil: "nil"}
 
